@@ -342,8 +342,8 @@ def docexamples(repo, cp=None):
             text = repo.read(doc)
         except OSError:
             raise AnalysisError(f"{doc} is missing")
-        for m in re.finditer(r"^```(\w*)\n(.*?)^```", text, re.S | re.M):
-            lang, body = m.group(1), m.group(2)
+        for m in re.finditer(r"^```([^\n]*)\n(.*?)^```", text, re.S | re.M):
+            lang, body = m.group(1).strip(), m.group(2)
             if lang not in ("", "emb"):
                 continue
             content = [ln for ln in body.split("\n") if ln.strip()]
